@@ -218,6 +218,46 @@ pub fn shard_run(prop: &str, tier: &str, seed: u64, replay: Option<&serde_json::
         cov.count(if complete { "scenarios_enumerated_completely" } else { "scenarios_capped_then_sampled" }, 1);
         cov.count("sequential_reference_runs", oracle.seq_runs);
     }
+    // ---- uncontrolled stress (E2s): OS-chosen interleavings, also inside SQLite and between processes
+    if replay.is_none() && prop == "C03" {
+        use crate::stress::{self, Mode};
+        let plan: Vec<(Mode, usize, usize, bool)> = if thorough {
+            let mut v = vec![];
+            for rep in 0..5 {
+                for m in [Mode::LibMem, Mode::LibSqliteShared, Mode::LibSqlitePerThread, Mode::SocketMem, Mode::TwoProcesses] {
+                    v.push((m, 8 + (rep % 2) * 4, if m == Mode::LibMem { 600 } else { 150 }, rep % 2 == 1));
+                }
+            }
+            v
+        } else {
+            vec![(Mode::LibSqlitePerThread, 6, 50, true), (Mode::LibMem, 8, 200, true), (Mode::SocketMem, 6, 60, false), (Mode::TwoProcesses, 6, 40, true)]
+        };
+        for (i, (mode, threads, ops, newc)) in plan.iter().enumerate() {
+            if !shard.mine(i + 3) {
+                continue;
+            }
+            let so = stress::run(*mode, *threads, *ops, seed.wrapping_add(i as u64), *newc);
+            if let Some(e) = so.error {
+                out.errors.push(format!("stress {mode:?}: {e}"));
+                continue;
+            }
+            cov.evaluations += so.recs.len() as u64;
+            cov.count("stress_requests", so.recs.len() as u64);
+            cov.count("stress_overlapping_request_pairs", so.overlapping_pairs);
+            cov.count("stress_accepted_versions", so.chains.iter().map(|c| c.len() as u64).sum());
+            cov.hit(format!("stress|{mode:?}|threads={threads}|new-clients={newc}"));
+            if let Err(m) = stress::check(&so, 4_500_000_000) {
+                out.found.push(Found {
+                    property: "C03".into(),
+                    msg: format!("stress {mode:?} ({threads} threads x {ops} requests): {m}"),
+                    signature: format!("C03:stress {}", m.split_whitespace().take(8).collect::<Vec<_>>().join(" ")),
+                    replay: json!({"origin": "stress", "case": i, "mode": format!("{mode:?}"), "threads": threads, "ops": ops, "note": "uncontrolled interleaving: re-running repeats the workload, not the schedule"}),
+                });
+                out.cov = cov;
+                return out;
+            }
+        }
+    }
     out.cov = cov;
     out
 }
